@@ -11,7 +11,7 @@ from . import c13
 
 PLAN = {
     "quick": {"shards": 8, "cases": 1000, "min_nontrivial": 4000, "budget_s": 300},
-    "thorough": {"shards": 16, "cases": 4000, "min_nontrivial": 40000, "budget_s": 1200},
+    "thorough": {"shards": 16, "cases": 30000, "min_nontrivial": 168000, "budget_s": 1500},
 }
 RULE = ("schemas over every field family including nested schemas, config-type fields, lists/dicts of typed items, "
         "virtual fields, application-mode helpers and instance methods generated from source text with every "
